@@ -8,7 +8,7 @@ package types
 //@ spec func ms(t int) int = fdiv(t, 1000000)
 //@ pred timeOK(t int) = -4000000000000000000 < t && t < 4000000000000000000
 //@
-//@ spec func linSched(A int, s int, e int, t int) int =
+//@ spec opaque func linSched(A int, s int, e int, t int) int =
 //@   t > e ? A * P : (t < s ? 0 : tquo(A * P * (ms(t) - ms(s)), ms(e) - ms(s)))
 //@
 //@ func (m *LinearMinting) AmountToMint(logger, startTime, endTime, blockTime) (res)
@@ -16,12 +16,13 @@ package types
 //@   requires timeOK(startTime) && timeOK(*endTime) && timeOK(blockTime)
 //@   requires ms(*endTime) > ms(startTime)
 //@   ensures !res.IsNil() && res == linSched(m.Amount, startTime, *endTime, blockTime)
+//@   reveal linSched
 //@   prop C02
 //@
 //@ // exponential-step schedule: E(j) is the amount of epoch j, S(n) the sum of the first n epochs
 //@ spec func expE(A int, m int, j int) int = j <= 0 ? A * P : chopRound(expE(A, m, j - 1) * m)
 //@ spec func expS(A int, m int, n int) int = n <= 0 ? 0 : expS(A, m, n - 1) + expE(A, m, n - 1)
-//@ spec func expSched(A int, m int, step int, s int, e int, hasEnd bool, t int) int =
+//@ spec opaque func expSched(A int, m int, step int, s int, e int, hasEnd bool, t int) int =
 //@   let now = ((hasEnd && t > e) ? e : t) in
 //@   let n = tquo(now - s, step) in
 //@   expS(A, m, n) + tquo(expE(A, m, n) * (now - s - n * step), step)
@@ -32,6 +33,7 @@ package types
 //@   requires m.StepDuration > 0 && startTime <= blockTime && (endTime != nil ==> startTime <= *endTime)
 //@   ensures !res.IsNil()
 //@   ensures res == expSched(m.Amount, m.AmountMultiplier, m.StepDuration, startTime, *endTime, endTime != nil, blockTime)
+//@   reveal expSched
 //@   prop C02
 //@ loop ExponentialStepMinting.AmountToMint#1
 //@   invariant 0 <= i && i <= numOfPassedEpochs
@@ -39,3 +41,68 @@ package types
 //@   invariant amountToMint == expS(m.Amount, m.AmountMultiplier, i)
 //@   invariant epochAmount == expE(m.Amount, m.AmountMultiplier, i - 1)
 //@   decreases numOfPassedEpochs - i
+//@
+//@ // ---- dispatch over the closed set of minter configurations ----
+//@ spec func cfg(m) any = m.Config.cachedValue
+//@ spec func linCfg(m) any = asType(cfg(m), "*LinearMinting")
+//@ spec func expCfg(m) any = asType(cfg(m), "*ExponentialStepMinting")
+//@ pred isNoMinting(m) = hasType(cfg(m), "*NoMinting")
+//@ pred isLinear(m) = hasType(cfg(m), "*LinearMinting")
+//@ pred isExp(m) = hasType(cfg(m), "*ExponentialStepMinting")
+//@
+//@ // what Minter.validate() accepts, plus the magnitudes the schedule arithmetic needs
+//@ pred validMinter(m) =
+//@   m != nil && m.Config != nil && (isNoMinting(m) || isLinear(m) || isExp(m))
+//@   && (m.EndTime != nil ==> timeOK(*m.EndTime))
+//@   && (isLinear(m) ==> linCfg(m) != nil && m.EndTime != nil && !linCfg(m).Amount.IsNil() && linCfg(m).Amount >= 0)
+//@   && (isExp(m) ==> expCfg(m) != nil && !expCfg(m).Amount.IsNil() && expCfg(m).Amount > 0
+//@         && !expCfg(m).AmountMultiplier.IsNil() && expCfg(m).AmountMultiplier >= 0 && expCfg(m).StepDuration > 0)
+//@
+//@ // cumulative emission of minter m, whose period starts at s, up to time t (scaled by 10^18)
+//@ spec func sched(m, s, t) int =
+//@   isLinear(m) ? linSched(linCfg(m).Amount, s, *m.EndTime, t)
+//@   : (isExp(m) ? expSched(expCfg(m).Amount, expCfg(m).AmountMultiplier, expCfg(m).StepDuration, s, *m.EndTime, m.EndTime != nil, t) : 0)
+//@
+//@ func (m *NoMinting) AmountToMint(logger, startTime, endTime, blockTime) (res)
+//@   ensures !res.IsNil() && res == 0
+//@   prop C02
+//@
+//@ func (m *Minter) AmountToMint(logger, startTime, blockTime) (res)
+//@   requires validMinter(m) && timeOK(startTime) && timeOK(blockTime)
+//@   requires startTime <= blockTime && (m.EndTime != nil ==> ms(startTime) < ms(*m.EndTime))
+//@   ensures !res.IsNil() && res == sched(m, startTime, blockTime)
+//@   prop C02
+//@
+//@ // log-only helper: callers learn nothing about the result
+//@ func (m *Minter) GetMinterJSON() (r)
+//@   prop C10
+//@
+//@ // ---- lemmas about the schedule functions ----
+//@ lemma chopRoundNonNeg(x int)
+//@   requires x >= 0
+//@   ensures chopRound(x) >= 0
+//@   reveal chopRound
+//@   prop C02
+//@ lemma linSchedNonNeg(A int, s int, e int, t int)
+//@   requires A >= 0 && s <= t && ms(s) < ms(e)
+//@   ensures linSched(A, s, e, t) >= 0
+//@   reveal linSched
+//@   prop C02
+//@ lemma expENonNeg(A int, m int, j int)
+//@   induction j
+//@   requires A > 0 && m >= 0 && j >= 0
+//@   ensures expE(A, m, j) >= 0
+//@   uses chopRoundNonNeg(expE(A, m, j - 1) * m)
+//@   prop C02
+//@ lemma expSNonNeg(A int, m int, n int)
+//@   induction n
+//@   requires A > 0 && m >= 0 && n >= 0
+//@   ensures expS(A, m, n) >= 0
+//@   uses expENonNeg(A, m, n - 1)
+//@   prop C02
+//@ lemma expSchedNonNeg(A int, m int, step int, s int, e int, hasEnd bool, t int)
+//@   requires A > 0 && m >= 0 && step > 0 && s <= t && (hasEnd ==> s <= e)
+//@   ensures expSched(A, m, step, s, e, hasEnd, t) >= 0
+//@   reveal expSched
+//@   uses expSNonNeg(A, m, tquo(((hasEnd && t > e) ? e : t) - s, step)), expENonNeg(A, m, tquo(((hasEnd && t > e) ? e : t) - s, step))
+//@   prop C02
